@@ -425,7 +425,7 @@ after a hunk header. -/
 def wf : Phase → List Event → Bool
   | _, [] => true
   | _, .fileMinus _ :: rest => wf .header rest
-  | _, .filePlus _ :: rest => wf .header rest
+  | ph, .filePlus n :: rest => (n.isSome || ph != .start) && wf .header rest
   | ph, .hunkHeader :: rest => ph != .start && wf .hunk rest
   | ph, .changedLine _ :: rest => ph == .hunk && wf .hunk rest
   | ph, .contextLine :: rest => ph == .hunk && wf .hunk rest
